@@ -782,6 +782,16 @@ Proof.
   - (* PSetClosing *)
     destruct (held (A t)) eqn:Hheld; [|discriminate]. inv_some.
     exists O.  now apply flag_pres.
+  - (* PSeqRead *)
+    inv_some. exists O. apply local_pres with (w := w); auto.
+    + apply shared_eq_set_thr.
+    + intros t' Hne. unfold set_thr. cbn. now rewrite upd_other.
+    + intros v0. generalize (Hv v0). unfold vrel, get, set_thr, srel. cbn. rewrite upd_same. cbn. rewrite get_unpeek.
+      destruct (get_ (vars (A t)) v0); auto.
+    + intros c v0 HO. own_of G HO. unfold set_thr, get. cbn. rewrite upd_same. cbn. rewrite get_unpeek.
+      unfold get in H5. split; [exact H4|]. destruct (get_ (vars (A t)) v0); auto.
+  - (* PSeqInc *)
+    inv_some. exists O. now apply noop_pres.
   - (* PNext *)
     destruct (held (A t)) eqn:Hheld; cbn in Ha; [|discriminate].
     destruct (noleak (A t)) eqn:Hnl; [|discriminate].
